@@ -4,7 +4,7 @@ use crate::run::*;
 use crate::util::*;
 use h264_reader::annexb::AnnexBReader;
 
-pub struct Oracle { run: Runner }
+pub struct Oracle { run: Runner, full_nal: Vec<u8> }
 
 /// Annex B segmentation of a whole stream followed by end of stream: bytes of each unit and an end marker `E`
 pub fn reference_segmentation(s: &[u8]) -> Vec<String> {
@@ -46,7 +46,7 @@ fn events(calls: &[String]) -> Vec<String> {
 }
 
 impl Oracle {
-    pub fn new() -> Oracle { Oracle { run: Runner::new() } }
+    pub fn new() -> Oracle { Oracle { run: Runner::new(), full_nal: vec![] } }
     pub fn check(&mut self, prop: &str, line: &str) -> String {
         let r = std::panic::catch_unwind(std::panic::AssertUnwindSafe(|| self.check_inner(prop, line)));
         match r { Ok(s) => s, Err(_) => "FAIL panic".to_string() }
@@ -61,9 +61,26 @@ impl Oracle {
             ("C02", "decodenal") => self.c02_decodenal(toks.get(1).copied().unwrap_or("-"), line),
             ("C15", "refnal") => self.c15(&toks[1..], line),
             ("C08", "acc") => self.c08(&toks[1..], line),
-            ("C07", "bits") | ("C14", "bits") => self.bits(&toks[1..], line),
+            ("C07", "bits") | ("C14", "bits") => self.bits(&toks[1..], line, None),
+            ("C07", "nalbits") | ("C14", "nalbits") => {
+                // reference: un-escape the NAL (independent of the library), then the same bit-level reference decoder
+                let chunks = chunks_of(toks[1]); let all: Vec<u8> = chunks.concat();
+                let (rbsp, valid) = unescape(&all[1..]);
+                if !valid { let _ = self.run.run_line(line); return "ok".into(); }
+                let fin = if toks[2] == "1" { "Eof" } else { "WouldBlock" };
+                let mut t2: Vec<String> = vec![if rbsp.is_empty() { "-".to_string() } else { hex(&rbsp) }]; t2.extend(toks[3..].iter().map(|x| x.to_string()));
+                let t2r: Vec<&str> = t2.iter().map(|x| x.as_str()).collect();
+                self.bits(&t2r, line, Some(fin))
+            }
+            ("C13", "derived") => self.c13(line),
+            ("C16", "sps") | ("C16", "pps") | ("C16", "slice") => self.c16(&toks, line),
+            ("C09", "avcc") => self.c09(toks.get(1).copied().unwrap_or(""), line),
+            ("C12", "stream") => self.c12(&toks[1..], line),
+            ("C17", "full") => { self.full_nal = unhex(toks.get(1).copied().unwrap_or("")); "ok".into() }
+            ("C17", "nal") => self.c17(&toks, line),
             ("C19", "ctx") => self.c19(&toks[1..], line),
             ("C10", "sei") => self.c10(&toks[1..], line),
+            ("C20", _) | ("C13", "profile") | ("C13", "level") => self.c20(&toks),
             ("C03", _) => {
                 // (the constant covers the parameter-set tables: 256 slots of a PPS, 32 of an SPS - fixed, input-independent sizes)
                 // input size in bytes (hex digits / 2); the whole case execution (library + the harness's own parsing and
@@ -235,8 +252,10 @@ impl Oracle {
     }
 
     /// reference bit-level decoder (clause 7.2 / 9.1) over the bit vector
-    fn bits(&mut self, t: &[&str], line: &str) -> String {
+    fn bits(&mut self, t: &[&str], line: &str, fin: Option<&str>) -> String {
         let obs = self.run.run_line(line);
+        // on an incomplete NAL every end-of-data condition is WouldBlock instead (and never a value / success)
+        let incomplete = fin == Some("WouldBlock");
         if obs == "PANIC" { return "FAIL panic".into(); }
         let d = if t[0] == "-" { vec![] } else { unhex(t[0]) };
         let bits: Vec<bool> = d.iter().flat_map(|b| (0..8).map(move |i| (b >> (7 - i)) & 1 == 1)).collect();
@@ -260,9 +279,15 @@ impl Oracle {
                 else if *op == "seifinish" { dead = true; if rest.is_empty() { Ok("ok".into()) } else if rest[0] && !rest[1..].iter().any(|b| *b) { Ok("ok".into()) } else { Err("Remaining".into()) } }
                 else if let Some(n) = op.strip_prefix("skip") { let n: usize = n.parse().unwrap(); if rest.len() < n { Err("Io(f,Eof)".into()) } else { pos += n; Ok("ok".into()) } }
                 else { let n: usize = op[1..].parse().unwrap(); if rest.len() < n { Err("Io(f,Eof)".into()) } else { let mut v = 0u64; for b in &rest[..n] { v = v * 2 + *b as u64; } pos += n; Ok(v.to_string()) } };
-            let (w, is_err) = match want { Ok(s) => (s, false), Err(s) => (s, true) };
+            let (mut w, mut is_err) = match want { Ok(s) => (s, false), Err(s) => (s, true) };
+            if incomplete {
+                if w.ends_with(",Eof)") { w = w.replace(",Eof)", ",WouldBlock)"); }
+                // queries that reach the end of the buffered data cannot be answered yet
+                let hits_end = match *op { "more" => !rest.iter().skip(1).any(|b| *b), "finish" => !is_err || w == "ok", "seifinish" => rest.is_empty() || (rest[0] && !rest[1..].iter().any(|b| *b)), _ => false };
+                if hits_end && (*op == "more" || w == "ok") { w = format!("Io({},WouldBlock)", if *op == "more" { "f" } else { "finish" }); is_err = true; }
+            }
             // names of the finish errors differ by call site; compare on the class for those
-            let same = o == w || (is_err && w.starts_with("Io(finish") && o.starts_with("Io(") && o.ends_with(",Eof)"));
+            let same = o == w || (is_err && w.starts_with("Io(finish") && o.starts_with("Io(") && (o.ends_with(",Eof)") || (incomplete && o.ends_with(",WouldBlock)"))));
             if !same { return format!("FAIL op {} at bit {}: got {} expected {}", op, pos, o, w); }
             if is_err { dead = true; }
         }
@@ -284,6 +309,235 @@ impl Oracle {
             if o != want { return format!("FAIL op {}: got {} expected {}", op, o, want); }
         }
         "ok".into()
+    }
+
+    /// reference reading of an AVCDecoderConfigurationRecord (ISO/IEC 14496-15 5.2.4.1), independent of the library
+    fn c09(&mut self, h: &str, line: &str) -> String {
+        let obs = self.run.run_line(line);
+        if obs == "PANIC" || obs.contains("PANIC") { return "FAIL panic".into(); }
+        let d = unhex(h);
+        if d.len() < 6 { return if obs == format!("NotEnoughData(6,{})", d.len()) { "ok".into() } else { format!("FAIL a {}-byte record was not refused as too short: {}", d.len(), &obs[..obs.len().min(80)]) }; }
+        if d[0] != 1 { return if obs == format!("UnsupportedVersion({})", d[0]) { "ok".into() } else { format!("FAIL version {} not refused: {}", d[0], &obs[..obs.len().min(80)]) }; }
+        // walk the declared entries; any entry cut short means the record must be refused
+        let mut pos = 6usize; let mut lists: Vec<Vec<&[u8]>> = vec![vec![], vec![]]; let mut truncated = false;
+        let nsps = (d[5] & 31) as usize;
+        'outer: for which in 0..2 {
+            let n = if which == 0 { nsps } else { if pos >= d.len() { truncated = true; break; } let n = d[pos] as usize; pos += 1; n };
+            for _ in 0..n {
+                if pos + 2 > d.len() { truncated = true; break 'outer; }
+                let l = ((d[pos] as usize) << 8) | d[pos + 1] as usize; pos += 2;
+                if pos + l > d.len() { truncated = true; break 'outer; }
+                lists[which].push(&d[pos..pos + l]); pos += l;
+            }
+        }
+        if truncated { return if obs.starts_with("NotEnoughData(") { "ok".into() } else { format!("FAIL a record truncated inside its declared parameter sets was not refused: {}", &obs[..obs.len().min(100)]) }; }
+        if !obs.starts_with("Ok ") { return format!("FAIL a well-formed record was refused: {}", &obs[..obs.len().min(100)]); }
+        let render = |l: &Vec<&[u8]>, want: u8| -> String {
+            for n in l { if n.is_empty() { return "ParamSet(Empty)".into(); } if n[0] & 0x80 != 0 { return "ParamSet(ForbiddenZeroBit)".into(); } if n[0] & 31 != want { return "ParamSet(IncorrectNalType)".into(); } }
+            format!("Ok({})", l.iter().map(|n| hex(n)).collect::<Vec<_>>().join(","))
+        };
+        let want = format!("Ok v={} n={} prof={} compat={} level={} lsm1={} sps={} pps={} ", d[0], nsps, d[1], d[2], d[3], d[4] & 3, render(&lists[0], 7), render(&lists[1], 8));
+        if obs.starts_with(&want) { "ok".into() } else { format!("FAIL accessors / iterators gave [{}] expected [{}]", &obs[..obs.len().min(300)], &want[..want.len().min(300)]) }
+    }
+
+    /// end to end: the NALs the handler is shown are the reference segmentation of the stream (each non-empty unit once,
+    /// in order, byte-identical), and each parse inside the handler equals the parse of that NAL alone from a contiguous
+    /// buffer against a context built the same way
+    fn c12(&mut self, t: &[&str], line: &str) -> String {
+        let policy = t[0];
+        let mut data: Vec<u8> = vec![];
+        for op in &t[1..] { if *op != "r" { data.extend(unhex(&op[2..])); } }
+        let mut units: Vec<Vec<u8>> = vec![]; let mut cur: Vec<u8> = vec![];
+        for e in reference_segmentation(&data) { if e == "E" { if !cur.is_empty() { units.push(std::mem::take(&mut cur)); } else { cur.clear(); } } else { cur.push(u8::from_str_radix(&e, 16).unwrap()); } }
+        let obs = self.run.run_line(line);
+        if obs == "PANIC" { return "FAIL panic".into(); }
+        let items: Vec<(&str, &str)> = if obs.is_empty() { vec![] } else { obs.split(' ').map(|it| { let mut p = it.splitn(2, '='); (p.next().unwrap(), p.next().unwrap_or("")) }).collect() };
+        let mut alone = Runner::new();
+        let mut k = 0usize;
+        for u in &units {
+            let ty = if u[0] & 0x80 != 0 { 255 } else { u[0] & 31 };
+            let want = alone.run_line(&format!("nal {} 1", hex(u))).replace(' ', "_");
+            if policy == "H" && (ty == 1 || ty == 5) {
+                // tried on every invocation: shown bytes are a prefix of the unit; the outcome is that of the complete NAL
+                // (C17) except for the position fields, which depend on how much was buffered
+                if want.ends_with("WouldBlock") { continue; }
+                let (hx, res) = match items.get(k) { Some(x) => *x, None => return format!("FAIL slice NAL {} was never decided", hex(u)) };
+                k += 1;
+                if !hex(u).starts_with(hx) { return format!("FAIL the handler was shown {} which is not a prefix of NAL {}", hx, hex(u)); }
+                let cut = |s: &str| s.split("_left=").next().unwrap().to_string();
+                if cut(res) != cut(&want) { return format!("FAIL slice header inside the handler [{}] differs from the NAL parsed alone [{}]", &res[..res.len().min(200)], &want[..want.len().min(200)]); }
+            } else {
+                let (hx, res) = match items.get(k) { Some(x) => *x, None => return format!("FAIL NAL {} was never shown completely", &hex(u)[..hex(u).len().min(80)]) };
+                k += 1;
+                if hx != hex(u) { return format!("FAIL the handler was shown {} but the NAL unit in the stream is {}", &hx[..hx.len().min(120)], &hex(u)[..hex(u).len().min(120)]); }
+                if res != want { return format!("FAIL parse inside the handler [{}] differs from the NAL parsed alone [{}]", &res[..res.len().min(200)], &want[..want.len().min(200)]); }
+            }
+        }
+        if k != items.len() { return format!("FAIL the handler produced {} results for {} NAL units", items.len(), units.len()); }
+        "ok".into()
+    }
+
+    /// a proper prefix presented as an incomplete NAL must block or agree with the complete contiguous NAL (announced by
+    /// the preceding `full` line); both are parsed against the same context, twice (purity), without storing results
+    fn c17(&mut self, t: &[&str], line: &str) -> String {
+        use h264_reader::nal::RefNal;
+        let chunks = chunks_of(t[1]); let complete = t[2] == "1"; let bytes: Vec<u8> = chunks.concat();
+        let mut verdict = "ok".to_string();
+        if !complete && self.full_nal.len() > bytes.len() && self.full_nal.starts_with(&bytes) && unescape(&self.full_nal[1..]).1 {
+            let refs: Vec<&[u8]> = chunks.iter().map(|c| &c[..]).collect();
+            let part = RefNal::new(refs[0], &refs[1..], false);
+            let full = RefNal::new(&self.full_nal[..], &[], true);
+            let p1 = self.parse_pure(&part); let p2 = self.parse_pure(&part); let f = self.parse_pure(&full);
+            if p1 != p2 { verdict = format!("FAIL parsing the same partial NAL twice gave different outcomes: {} / {}", &p1[..p1.len().min(200)], &p2[..p2.len().min(200)]); }
+            else if p1.starts_with("sei:") {
+                // a prefix of the complete message sequence, then a would-block failure
+                let pm: Vec<&str> = p1[4..].split(' ').collect(); let fm: Vec<&str> = f[4..].split(' ').collect();
+                let k = pm.iter().take_while(|m| m.starts_with("msg:")).count();
+                let okp = pm[..k].iter().zip(fm.iter()).all(|(a, b)| a == b) && pm.get(k).map(|e| e.contains("WouldBlock") || fm.get(k) == Some(e)).unwrap_or(false);
+                if !okp { verdict = format!("FAIL SEI messages from the prefix [{}] are not a prefix of those of the complete NAL [{}] followed by a would-block failure", &p1[..p1.len().min(300)], &f[..f.len().min(300)]); }
+            } else {
+                let blocks = p1.ends_with(":WouldBlock");
+                let same = p1 == f || (p1.ends_with(":Err") && f.ends_with(":Err"));
+                if !blocks && !same { verdict = format!("FAIL prefix of {} bytes gave [{}] but the complete NAL gives [{}]", bytes.len(), &p1[..p1.len().min(300)], &f[..f.len().min(300)]); }
+                if p1.starts_with("sps:Ok") || p1.starts_with("pps:Ok") { verdict = format!("FAIL a parameter set was accepted from a proper prefix ({} of {} bytes)", bytes.len(), self.full_nal.len()); }
+            }
+        }
+        let _ = self.run.run_line(line);
+        verdict
+    }
+    fn parse_pure(&self, nal: &h264_reader::nal::RefNal<'_>) -> String {
+        use h264_reader::nal::Nal;
+        use h264_reader::nal::sps::SeqParameterSet; use h264_reader::nal::pps::PicParameterSet; use h264_reader::nal::slice::SliceHeader;
+        let hdr = match nal.header() { Ok(h) => h, Err(_) => return "hdr:err".into() };
+        match hdr.nal_unit_type().id() {
+            7 => match SeqParameterSet::from_bits(nal.rbsp_bits()) { Ok(s) => format!("sps:Ok({:?})", s), Err(e) => format!("sps:{}", err_class(&e)) },
+            8 => match PicParameterSet::from_bits(&self.run.ctx, nal.rbsp_bits()) { Ok(p) => format!("pps:Ok({:?})", p), Err(e) => format!("pps:{}", err_class(&e)) },
+            1 | 5 => { let mut br = nal.rbsp_bits(); match SliceHeader::from_bits(&self.run.ctx, &mut br, hdr) { Ok((h, s, p)) => format!("slice:Ok({:?},{},{})", h, s.seq_parameter_set_id.id(), p.pic_parameter_set_id.id()), Err(e) => format!("slice:{}", err_class(&e)) } }
+            6 => format!("sei:{}", self.run.sei_messages(nal.rbsp_bytes()).join(" ")),
+            t => format!("other:{}", t),
+        }
+    }
+
+    /// the documented bounds of C16 checked on the public fields of whatever the real parsers accept
+    fn c16(&mut self, t: &[&str], line: &str) -> String {
+        use h264_reader::nal::sps::{SeqParameterSet, PicOrderCntType, ChromaFormat};
+        use h264_reader::nal::pps::{PicParameterSet, SliceGroup};
+        use h264_reader::nal::slice::{SliceHeader, NumRefIdxActive, PicOrderCountLsb};
+        use h264_reader::nal::NalHeader;
+        use h264_reader::rbsp::BitReader;
+        let mut bad: Vec<String> = vec![];
+        match t[0] {
+            "sps" => {
+                let d = unhex(t.get(1).copied().unwrap_or(""));
+                if let Ok(s) = SeqParameterSet::from_bits(BitReader::new(&d[..])) {
+                    if s.seq_parameter_set_id.id() > 31 { bad.push("sps id > 31".into()); }
+                    if s.log2_max_frame_num_minus4 > 12 { bad.push(format!("log2_max_frame_num_minus4 = {}", s.log2_max_frame_num_minus4)); }
+                    if s.chroma_info.bit_depth_luma_minus8 > 6 || s.chroma_info.bit_depth_chroma_minus8 > 6 { bad.push("bit depth > 14".into()); }
+                    match &s.pic_order_cnt { PicOrderCntType::TypeZero { log2_max_pic_order_cnt_lsb_minus4 } => if *log2_max_pic_order_cnt_lsb_minus4 > 12 { bad.push("log2 POC lsb > 16".into()); },
+                        PicOrderCntType::TypeOne { offsets_for_ref_frame, .. } => if offsets_for_ref_frame.len() > 255 { bad.push("more than 255 POC cycle offsets".into()); }, _ => {} }
+                    if let Some(m) = &s.chroma_info.scaling_matrix {
+                        let want8 = if s.chroma_info.chroma_format == ChromaFormat::YUV444 { 6 } else { 2 };
+                        if m.scaling_list4x4.len() != 6 || m.scaling_list8x8.len() != want8 { bad.push(format!("{} + {} scaling lists for chroma format {:?}", m.scaling_list4x4.len(), m.scaling_list8x8.len(), s.chroma_info.chroma_format)); }
+                    }
+                    if let Some(v) = &s.vui_parameters {
+                        for h in [v.nal_hrd_parameters.as_ref(), v.vcl_hrd_parameters.as_ref()].iter().flatten() { if h.cpb_specs.is_empty() || h.cpb_specs.len() > 32 { bad.push(format!("{} CPB entries", h.cpb_specs.len())); } }
+                        if let Some(b) = &v.bitstream_restrictions {
+                            if b.max_bytes_per_pic_denom > 16 || b.max_bits_per_mb_denom > 16 || b.log2_max_mv_length_horizontal > 16 || b.log2_max_mv_length_vertical > 16 { bad.push(format!("bitstream restriction out of range: {:?}", b)); }
+                            if b.max_num_reorder_frames > b.max_dec_frame_buffering || s.max_num_ref_frames > b.max_dec_frame_buffering { bad.push(format!("bitstream restriction inconsistent with max_num_ref_frames {}: {:?}", s.max_num_ref_frames, b)); }
+                        }
+                    }
+                }
+            }
+            "pps" => {
+                let d = unhex(t.get(1).copied().unwrap_or(""));
+                if let Ok(p) = PicParameterSet::from_bits(&self.run.ctx, BitReader::new(&d[..])) {
+                    if self.run.ctx.sps_by_id(p.seq_parameter_set_id).is_none() { bad.push("refers to an SPS that is not in the context".into()); }
+                    if p.num_ref_idx_l0_default_active_minus1 > 31 || p.num_ref_idx_l1_default_active_minus1 > 31 { bad.push("reference count > 32".into()); }
+                    let groups = match &p.slice_groups { None => 1, Some(SliceGroup::Interleaved { run_length_minus1 }) => run_length_minus1.len() as u32, Some(SliceGroup::Dispersed { num_slice_groups_minus1 }) => num_slice_groups_minus1 + 1,
+                        Some(SliceGroup::ForegroundAndLeftover { rectangles }) => rectangles.len() as u32 + 1, Some(SliceGroup::Changing { num_slice_groups_minus1, .. }) => num_slice_groups_minus1 + 1, Some(SliceGroup::ExplicitAssignment { num_slice_groups_minus1, .. }) => num_slice_groups_minus1 + 1 };
+                    if groups > 8 { bad.push(format!("{} slice groups", groups)); }
+                    let bd = self.run.ctx.sps_by_id(p.seq_parameter_set_id).map(|s| s.chroma_info.bit_depth_luma_minus8 as i32).unwrap_or(0);
+                    if p.pic_init_qp_minus26 < -(26 + 6 * bd) || p.pic_init_qp_minus26 > 25 || p.pic_init_qs_minus26 < -26 || p.pic_init_qs_minus26 > 25 || p.chroma_qp_index_offset < -12 || p.chroma_qp_index_offset > 12 { bad.push("QP/QS/chroma offset out of range".into()); }
+                    if let Some(e) = &p.extension { if e.second_chroma_qp_index_offset < -12 || e.second_chroma_qp_index_offset > 12 { bad.push("second chroma offset out of range".into()); } }
+                }
+            }
+            _ => {
+                if let Ok(h) = NalHeader::new(unhex(t[1])[0]) {
+                    let d = unhex(t.get(2).copied().unwrap_or(""));
+                    let mut br = BitReader::new(&d[..]);
+                    if let Ok((sh, s, p)) = SliceHeader::from_bits(&self.run.ctx, &mut br, h) {
+                        let ctx_s = self.run.ctx.sps_by_id(s.seq_parameter_set_id); let ctx_p = self.run.ctx.pps_by_id(p.pic_parameter_set_id);
+                        if !ctx_s.map(|x| std::ptr::eq(x, s)).unwrap_or(false) || !ctx_p.map(|x| std::ptr::eq(x, p)).unwrap_or(false) { bad.push("returned SPS/PPS are not the context entries named by the ids".into()); }
+                        if p.seq_parameter_set_id.id() != s.seq_parameter_set_id.id() { bad.push("returned SPS is not the one the PPS refers to".into()); }
+                        if (sh.frame_num as u32) >= (1u32 << (s.log2_max_frame_num_minus4 + 4)) { bad.push("frame_num not below its modulus".into()); }
+                        if let (Some(lsb), h264_reader::nal::sps::PicOrderCntType::TypeZero { log2_max_pic_order_cnt_lsb_minus4 }) = (&sh.pic_order_cnt_lsb, &s.pic_order_cnt) {
+                            let v = match lsb { PicOrderCountLsb::Frame(v) => Some(*v), PicOrderCountLsb::FieldsAbsolute { pic_order_cnt_lsb, .. } => Some(*pic_order_cnt_lsb), _ => None };
+                            if let Some(v) = v { if v >= (1u32 << (log2_max_pic_order_cnt_lsb_minus4 + 4)) { bad.push("POC lsb not below its modulus".into()); } } }
+                        match &sh.num_ref_idx_active { Some(NumRefIdxActive::P { num_ref_idx_l0_active_minus1 }) => if *num_ref_idx_l0_active_minus1 > 31 { bad.push("reference count > 32".into()); },
+                            Some(NumRefIdxActive::B { num_ref_idx_l0_active_minus1, num_ref_idx_l1_active_minus1 }) => if *num_ref_idx_l0_active_minus1 > 31 || *num_ref_idx_l1_active_minus1 > 31 { bad.push("reference count > 32".into()); }, None => {} }
+                        if let Some(q) = sh.slice_qs { if q > 51 { bad.push(format!("slice QS = {}", q)); } }
+                    }
+                }
+            }
+        }
+        let _ = self.run.run_line(line);   // keep the context in step
+        if bad.is_empty() { "ok".into() } else { format!("FAIL accepted but out of the documented bounds: {}", bad.join("; ")) }
+    }
+
+    /// pixel dimensions by the standard's formula in 128-bit arithmetic, fps and codec string, from the public fields
+    fn c13(&mut self, line: &str) -> String {
+        use h264_reader::nal::sps::{SeqParameterSet, ChromaFormat, FrameMbsFlags};
+        use h264_reader::rbsp::BitReader;
+        let d = unhex(line.split_whitespace().nth(1).unwrap_or(""));
+        let s = match SeqParameterSet::from_bits(BitReader::new(&d[..])) { Ok(s) => s, Err(_) => return "ok".into() };
+        let mul: u128 = match s.frame_mbs_flags { FrameMbsFlags::Fields { .. } => 2, FrameMbsFlags::Frames => 1 };
+        let w = 16 * (s.pic_width_in_mbs_minus1 as u128 + 1); let h = 16 * mul * (s.pic_height_in_map_units_minus1 as u128 + 1);
+        let cx: u128 = if matches!(s.chroma_info.chroma_format, ChromaFormat::YUV420 | ChromaFormat::YUV422) { 2 } else { 1 };
+        let cy: u128 = mul * if matches!(s.chroma_info.chroma_format, ChromaFormat::YUV420) { 2 } else { 1 };
+        let (l, r, t, b) = s.frame_cropping.as_ref().map(|c| (c.left_offset as u128, c.right_offset as u128, c.top_offset as u128, c.bottom_offset as u128)).unwrap_or((0, 0, 0, 0));
+        let lim = 1u128 << 32;
+        let ok = w < lim && h < lim && l * cx < lim && r * cx < lim && t * cy < lim && b * cy < lim && (l + r) * cx <= w && (t + b) * cy <= h;
+        match (s.pixel_dimensions(), ok) {
+            (Ok((gw, gh)), true) => if gw as u128 != w - (l + r) * cx || gh as u128 != h - (t + b) * cy { return format!("FAIL pixel_dimensions = ({},{}) but the standard gives ({},{})", gw, gh, w - (l + r) * cx, h - (t + b) * cy); },
+            (Err(_), false) => {}
+            (Ok(g), false) => return format!("FAIL pixel_dimensions = {:?} although a product exceeds 32 bits or the crop exceeds the picture", g),
+            (Err(e), true) => return format!("FAIL pixel_dimensions = Err({:?}) but the standard gives ({},{})", e, w - (l + r) * cx, h - (t + b) * cy),
+        }
+        if let Some(ti) = s.vui_parameters.as_ref().and_then(|v| v.timing_info.as_ref()) {
+            let want = (ti.time_scale as f64) / (2.0 * (ti.num_units_in_tick as f64));
+            match s.fps() { Some(f) if f == want || (f.is_nan() && want.is_nan()) => {} other => return format!("FAIL fps = {:?}, expected {}", other, want) }
+        } else if s.fps().is_some() { return "FAIL fps without timing info".into(); }
+        let want = format!("avc1.{:02X}{:02X}{:02X}", u8::from(s.profile_idc), u8::from(s.constraint_flags), s.level_idc);
+        if format!("{}", s.rfc6381()) != want { return format!("FAIL rfc6381 = {} expected {}", s.rfc6381(), want); }
+        if s.profile().profile_idc() != u8::from(s.profile_idc) || s.level().level_idc() != s.level_idc { return "FAIL profile / level do not map back".into(); }
+        "ok".into()
+    }
+
+    /// the round-trip statements of C20 evaluated directly on the real functions
+    fn c20(&mut self, t: &[&str]) -> String {
+        use h264_reader::nal::{NalHeader, UnitType};
+        use h264_reader::nal::sps::{Profile, ProfileIdc, Level, ConstraintFlags, SeqParamSetId};
+        use h264_reader::nal::pps::PicParamSetId;
+        let v: u64 = t[1].parse().unwrap();
+        match t[0] {
+            "hdr" => { let b = v as u8; match NalHeader::new(b) {
+                Ok(h) => if b >= 128 { "FAIL header byte with the top bit set accepted".into() } else if h.nal_ref_idc() != (b >> 5) & 3 || h.nal_unit_type().id() != b & 31 || u8::from(h) != b { format!("FAIL header {:#04x}: ref_idc {} type {} byte {}", b, h.nal_ref_idc(), h.nal_unit_type().id(), u8::from(h)) } else { "ok".into() },
+                Err(_) => if b >= 128 { "ok".into() } else { format!("FAIL header {:#04x} refused", b) } } }
+            "unittype" => { let id = v as u8; match UnitType::for_id(id) {
+                Ok(u) => { if id > 31 { return format!("FAIL unit type id {} accepted", id); } if u.id() != id { return format!("FAIL UnitType::for_id({}).id() = {}", id, u.id()); }
+                    for j in 0..id { if UnitType::for_id(j).ok() == Some(u) { return format!("FAIL unit type ids {} and {} map to the same type", j, id); } } "ok".into() }
+                Err(_) => if id > 31 { "ok".into() } else { format!("FAIL unit type id {} refused", id) } } }
+            "profile" => { let b = v as u8; let back = Profile::from_profile_idc(ProfileIdc::from(b)).profile_idc(); if back == b { "ok".into() } else { format!("FAIL profile_idc {} maps back to {}", b, back) } }
+            "level" => { let f = v as u8; let l: u8 = t[2].parse().unwrap(); let lv = Level::from_constraint_flags_and_level_idc(ConstraintFlags::from(f), l);
+                if lv.level_idc() != l { format!("FAIL (flags {:#04x}, level_idc {}) maps back to {}", f, l, lv.level_idc()) }
+                else if (lv == Level::L1_b) != (l == 11 && f & 0x10 != 0) { format!("FAIL level 1b decision wrong for flags {:#04x}, level_idc {}", f, l) } else { "ok".into() } }
+            "flags" => { let f = v as u8; let c = ConstraintFlags::from(f); let bits = [c.flag0(), c.flag1(), c.flag2(), c.flag3(), c.flag4(), c.flag5()];
+                let mut ok = u8::from(c) == f && c.reserved_zero_two_bits() == f & 3; for (i, b) in bits.iter().enumerate() { ok &= *b == ((f >> (7 - i)) & 1 == 1); }
+                if ok { "ok".into() } else { format!("FAIL constraint flags {:#04x} not preserved", f) } }
+            "spsid" => match SeqParamSetId::from_u32(v as u32) { Ok(i) => if v <= 31 && i.id() as u64 == v { "ok".into() } else { format!("FAIL SeqParamSetId::from_u32({}) gave {}", v, i.id()) }, Err(_) => if v > 31 { "ok".into() } else { format!("FAIL SeqParamSetId {} refused", v) } },
+            "ppsid" => match PicParamSetId::from_u32(v as u32) { Ok(i) => if v <= 255 && i.id() as u64 == v { "ok".into() } else { format!("FAIL PicParamSetId::from_u32({}) gave {}", v, i.id()) }, Err(_) => if v > 255 { "ok".into() } else { format!("FAIL PicParamSetId {} refused", v) } },
+            _ => "ok".into(),
+        }
     }
 
     /// SEI reader: reference message splitter on the reference-unescaped payload
